@@ -242,14 +242,14 @@ impl SDJWTVerifier {
         }
 
         self.duplicate_hash_check = Vec::new();
-        // only the top-level _sd_alg is part of the SD-JWT machinery
-        let claims: Value = self
-            .sd_jwt_payload
-            .clone()
-            .into_iter()
-            .filter(|(key, _)| key != DIGEST_ALG_KEY)
-            .collect();
-        self.unpack_disclosed_claims(&claims)
+        let claims: Value = self.sd_jwt_payload.clone().into_iter().collect();
+        let mut verified_claims = self.unpack_disclosed_claims(&claims)?;
+        // only the top-level _sd_alg is part of the SD-JWT machinery; it stays in place while the
+        // disclosures are applied so that a disclosed claim of that name is rejected as a duplicate
+        if let Some(obj) = verified_claims.as_object_mut() {
+            obj.shift_remove(DIGEST_ALG_KEY);
+        }
+        Ok(verified_claims)
     }
 
     fn unpack_disclosed_claims(&mut self, sd_jwt_claims: &Value) -> Result<Value> {
